@@ -1,6 +1,8 @@
 import Tup.DrvUtil
 import Tup.Model.ShellExport
 import Tup.Spec.Sh
+import Tup.Model.Response
+import Tup.Spec.Response
 /-! Driver for group Sh: shell exporter (C18) and terminal responses (C19). -/
 namespace Tup.Drv.Sh
 open Tup
@@ -41,9 +43,93 @@ def handleSh : List String → Option String
       pure (optHex (Spec.Sh.eval s))
   | _ => none
 
+/-! ### responses (C19) -/
+def optInt : Option Int → String
+  | none => "-"
+  | some v => toString v
+
+def extrasStr (l : List (Bytes × Option Bytes)) : String :=
+  if l.isEmpty then "." else
+  ",".intercalate (l.map fun (k, v) => hexOut k ++ ":" ++ (match v with | none => "~" | some v => hexOut v))
+
+/-- canonical line of a response: `resp valid ok i I p msg non extras` -/
+def respStr (r : Tup.Response.Resp) : String :=
+  s!"resp {boolStr r.isValid} {boolStr r.isOk} {optInt r.imageId} {optInt r.imageNumber} {optInt r.placementId} " ++
+  s!"{hexOut r.message} {hexOut r.nonResponse} {extrasStr r.additional}"
+
+def recvStr : Tup.Response.Recv → String
+  | .resp r => respStr r
+  | .decodeError => "decodeError"
+
+def expectedStr (e : Spec.Response.Expected) : String :=
+  let oi (o : Option Nat) : String := match o with | none => "-" | some n => toString n
+  s!"resp 1 {boolStr e.isOk} {oi e.imageId} {oi e.imageNumber} {oi e.placementId} " ++
+  s!"{hexOut e.message} {hexOut e.nonResponse} {extrasStr e.extras}"
+
+/-- keys token: `.` or comma separated `i:5`, `I:7`, `p:3`, `x:<khex>:<vhex|~>` -/
+def parseKey (s : String) : Option Spec.Response.Key :=
+  match s.splitOn ":" with
+  | ["i", n] => n.toNat?.map .imageId
+  | ["I", n] => n.toNat?.map .imageNumber
+  | ["p", n] => n.toNat?.map .placementId
+  | ["x", k, v] => do
+      let k ← ofHex k
+      if v = "~" then pure (.extra k none) else do
+        let v ← ofHex v
+        pure (.extra k (some v))
+  | _ => none
+
+def parseWf (keys msg : String) : Option Spec.Response.Wf := do
+  let ks ← if keys = "." then pure [] else (keys.splitOn ",").mapM parseKey
+  let m ← if msg = "~" then pure none else (ofHex msg).map some
+  pure ⟨ks, m⟩
+
+def handleResp : List String → Option String
+  | ["recv", i] => do
+      let i ← ofHex i
+      let (r, rest) := Tup.Response.receive i
+      pure (recvStr r ++ " " ++ hexOut rest)
+  | ["recvmulti", i] => do
+      let i ← ofHex i
+      match Tup.Response.receiveMultiple i with
+      | none => pure "decodeError"
+      | some l => pure (s!"multi {l.length}" ++ String.join (l.map fun r => " | " ++ respStr r))
+  | ["cpr", i] => do
+      let i ← ofHex i
+      match Tup.Response.getCursorPosition i with
+      | .pos x y rest => pure s!"pos {x} {y} {hexOut rest}"
+      | .timeout => pure "timeout"
+      | .valueError rest => pure s!"valueError {hexOut rest}"
+  | ["pyint", i] => do
+      let i ← ofHex i
+      pure (optInt (Tup.Response.pyInt i))
+  | ["utf8", i] => do
+      let i ← ofHex i
+      pure (boolStr (Tup.Response.utf8Valid i) ++ " " ++ boolStr (Spec.Response.isUtf8 i))
+  | ["spec_encode", keys, msg] => do
+      let w ← parseWf keys msg
+      pure (hexOut (Spec.Response.encode w))
+  | ["spec_expect", noise, keys, msg] => do
+      let n ← ofHex noise
+      let w ← parseWf keys msg
+      pure (expectedStr (Spec.Response.expected n w))
+  | ["spec_wf", keys, msg] => do
+      let w ← parseWf keys msg
+      pure (boolStr (Spec.Response.wf w))
+  | ["spec_noise", n] => do
+      let n ← ofHex n
+      pure (boolStr (Spec.Response.noiseOk n) ++ " " ++ boolStr (Spec.Response.cprNoiseOk n))
+  | ["spec_cpr", x, y] => do
+      let x ← x.toNat?; let y ← y.toNat?
+      pure (hexOut (Spec.Response.encodeCpr x y))
+  | _ => none
+
 def handle (args : List String) : String :=
   match handleSh args with
   | some r => r
-  | none => "bad"
+  | none =>
+    match handleResp args with
+    | some r => r
+    | none => "bad"
 
 end Tup.Drv.Sh
